@@ -166,3 +166,8 @@ def check(cx):
     cx.include(c09, {"C09.1"}, "C12.9", "shared with C09.1: a checkpoint always writes page zero; the header also carries the transaction counters and "
                "the aborted bitmap, which change without dirtying a page, so a checkpoint that writes it only when pages were dirty loses them "
                "(with a large cache nothing may be dirty at that moment: the outcome then depends on the cache size)", floor=2)
+
+    # ---- C12.10 (construct shared with C16.3b) -----------------------------------------------------------------------
+    from . import c16
+    cx.include(c16, {"C16.3b"}, "C12.10", "shared with C16.3b: no narrow counter of unbounded events in the library; data must survive any amount of "
+               "cache eviction, and a u16 eviction counter that panics when it wraps makes a small cache fail where a large one works", floor=2)
